@@ -137,13 +137,37 @@ Proof.
   tauto.
 Qed.
 
+(* str.encode("utf-8", "replace"): what cannot be encoded (a lone surrogate) becomes "?" *)
+Definition sanitize (cs : list Z) : list Z := map (fun c => if scalar c then c else 63) cs.
+
+Lemma uer_sanitize cs : utf8_encode_replace cs = encs (sanitize cs).
+Proof.
+  unfold utf8_encode_replace, encs, sanitize. induction cs as [|c r IH]; [reflexivity|].
+  cbn [map flat_map]. rewrite IH. destruct (scalar c); reflexivity.
+Qed.
+
+Lemma sanitize_scalar cs : Forall (fun c => scalar c = true) (sanitize cs).
+Proof.
+  unfold sanitize. apply Forall_forall. intros x Hx. apply in_map_iff in Hx. destruct Hx as (c & <- & _).
+  destruct (scalar c) eqn:E; [exact E|reflexivity].
+Qed.
+
+Lemma sanitize_id cs : forallb scalar cs = true -> sanitize cs = cs.
+Proof.
+  intros H. unfold sanitize. induction cs as [|c r IH]; [reflexivity|].
+  cbn [forallb] in H. apply andb_true_iff in H. destruct H as [H1 H2]. cbn [map]. rewrite H1, IH; auto.
+Qed.
+
+Lemma uer_scalar cs : forallb scalar cs = true -> utf8_encode_replace cs = encs cs.
+Proof. intros H. rewrite uer_sanitize, sanitize_id; auto. Qed.
+
 Section Bytes.
 Variable wcw : Z -> Z.
 Variable upper : Z -> list Z.
 Variable lower : list Z -> list Z.
 
 Notation ref_key := (ref_key (Width.cw wcw) upper lower).
-Notation bkeypress := (bkeypress wcw MUtf8).
+Notation bkeypress := (bkeypress wcw MUtf8 utf8_encode_replace).
 
 (* insertion of encoded characters *)
 Lemma b_insert sb ss cs :
@@ -198,7 +222,7 @@ Proof.
     unfold bvalid_char, Edit.valid_char. rewrite Hv.
     destruct cs as [|c r]; [cbn [fst snd chain]; splits; auto; discriminate|].
     destruct ((Width.cw wcw c =? 2) || match r with [] => 32 <=? c | _ :: _ => false end).
-    + unfold utf8_encode_str. rewrite Hk.
+    + rewrite (uer_scalar _ Hk).
       pose proof (b_insert sb ss (c :: r) R (Forall_cp_scalar _ Hk)) as B.
       destruct (insert_text sb (encs (c :: r))) as [sb' sg]. destruct B as (B1 & B2 & _).
       cbn [fst snd]. splits; auto; discriminate.
@@ -634,7 +658,7 @@ Proof.
   unfold EditBytes.bkeypress.
   destruct k.
   - destruct (bvalid_char wcw cs) as [[|]|]; try apply same_frame_refl.
-    destruct (utf8_encode_str cs); [|apply same_frame_refl]. unfold same_frame; cbn; auto.
+    unfold same_frame; cbn; auto.
   - destruct (allow_tab sb) eqn:E; [|apply same_frame_refl]. unfold same_frame; cbn; auto.
   - destruct (multiline sb) eqn:E; [|apply same_frame_refl]. unfold same_frame; cbn; auto.
   - destruct (pos sb =? 0); [apply same_frame_refl|].
@@ -745,7 +769,7 @@ Proof.
 Qed.
 
 Theorem bstep_OnB sb e :
-  OnB sb -> ev_ok sb e -> OnB (fst (fst (bstep wcw MUtf8 sb e))).
+  OnB sb -> ev_ok sb e -> OnB (fst (fst (bstep wcw MUtf8 utf8_encode_replace sb e))).
 Proof.
   intros HB Hok. destruct e as [k w lay|b c rw w lay|f w lay|w lay|p]; cbn [bstep].
   - (* keys *)
@@ -753,9 +777,19 @@ Proof.
       try (apply bkey_layout_OnB; [exact HB|exact Hok|exact I]);
       try (apply bkey_edit_OnB; [exact HB|exact I]).
     + (* KText *)
-      destruct (forallb scalar cs) eqn:E; [apply bkey_edit_OnB; [exact HB|exact E]|].
-      unfold EditBytes.bkeypress. destruct (bvalid_char wcw cs) as [[|]|]; try exact HB.
-      unfold utf8_encode_str. rewrite E. exact HB.
+      (* any key string: what str.encode cannot represent arrives as "?" - still UTF-8 *)
+      pose proof HB as (c & t & j & Hc & Sc & Ht & St_ & Hj & Hp & Hm).
+      pose proof (OnB_Rb sb c t j Hc Sc Ht St_ Hj Hp Hm) as R.
+      pose proof (bkeypress_frame sb (KText cs) w lay) as (F1 & F2 & _).
+      unfold EditBytes.bkeypress in *. destruct (bvalid_char wcw cs) as [[|]|]; try exact HB.
+      rewrite uer_sanitize in *.
+      pose proof (b_insert sb _ (sanitize cs) R (scalars_cp _ (sanitize_scalar cs))) as B.
+      destruct (insert_text sb (encs (sanitize cs))) as [sb' sg]. cbn [fst] in *.
+      destruct B as ((Et & Ep & _ & _ & _ & _ & HI) & _). cbn [put text pos] in Et, Ep, HI. unfold Inv in HI. cbn [put text pos] in HI.
+      exists c, (ins_at t j (sanitize cs)), (j + zlen (sanitize cs)).
+      rewrite F1, F2. repeat split; auto; try lia.
+      unfold scalars, ins_at. apply Forall_app. split; [apply Forall_takez; exact St_|].
+      apply Forall_app. split; [apply sanitize_scalar|apply Forall_dropz; exact St_].
     + (* KTab *)
       pose proof HB as (c & t & j & Hc & Sc & Ht & St_ & Hj & Hp & Hm).
       pose proof (OnB_Rb sb c t j Hc Sc Ht St_ Hj Hp Hm) as R.
@@ -801,20 +835,20 @@ Qed.
 Fixpoint evs_ok (sb : st) (es : list event) : Prop :=
   match es with
   | [] => True
-  | e :: r => ev_ok sb e /\ evs_ok (fst (fst (bstep wcw MUtf8 sb e))) r
+  | e :: r => ev_ok sb e /\ evs_ok (fst (fst (bstep wcw MUtf8 utf8_encode_replace sb e))) r
   end.
 
 Theorem brun_OnB es : forall sb,
   OnB sb -> evs_ok sb es ->
-  Forall (fun o => OnB (fst (fst o))) (snd (brun wcw MUtf8 sb es)) /\ OnB (fst (brun wcw MUtf8 sb es)).
+  Forall (fun o => OnB (fst (fst o))) (snd (brun wcw MUtf8 utf8_encode_replace sb es)) /\ OnB (fst (brun wcw MUtf8 utf8_encode_replace sb es)).
 Proof.
   induction es as [|e r IH]; intros sb HB Hok.
   - cbn. auto.
   - cbn [brun]. destruct Hok as [H1 H2].
     pose proof (bstep_OnB sb e HB H1) as B1.
-    destruct (bstep wcw MUtf8 sb e) as [[s1 sg] rt]. cbn [fst] in *.
+    destruct (bstep wcw MUtf8 utf8_encode_replace sb e) as [[s1 sg] rt]. cbn [fst] in *.
     destruct (IH s1 B1 H2) as [A B].
-    destruct (brun wcw MUtf8 s1 r) as [s2 outs]. cbn [fst snd] in *. split; [constructor; assumption|assumption].
+    destruct (brun wcw MUtf8 utf8_encode_replace s1 r) as [s2 outs]. cbn [fst snd] in *. split; [constructor; assumption|assumption].
 Qed.
 
 (* what OnB says in plain terms: the text decodes, and so do both halves around the offset *)
